@@ -455,6 +455,36 @@ func runC08(w *World, pi interface{}) {
 	// closes when the server answered finished or failed (during the handshake)
 	// (only when the client demonstrably consumed that answer: its own state shows it)
 	consumed := fstr(ret.Frame, "state") == "failed" || fstr(ret.Frame, "state") == "finished"
+	// ... or the order of events shows it: the terminal envelope was the only thing the server said
+	// after the client's latest envelope, the client was therefore waiting for exactly it, and its
+	// establishment returned afterwards, long before its deadline
+	if !consumed && p.CtxMs >= 30000 && ret.Kind == "estab-return" && ret.AtMs < 20000 {
+		termSeq, lastCli, others := -1, -1, 0
+		for _, e := range h.Ev {
+			switch {
+			case e.Kind == "s-frame":
+				lastCli, others = e.Seq, 0
+			case e.Kind == "c-send" || e.Kind == "c-bytes":
+				if st := fstr(e.Frame, "state"); e.Kind == "c-send" && (st == "failed" || st == "finished") && termSeq < 0 {
+					if lastCli >= 0 && others == 0 {
+						termSeq = e.Seq
+					}
+				}
+				others++
+			}
+		}
+		// (not when the server closed or reset the connection before the client returned: a reset
+		// overtakes the envelope, the client may have seen nothing but the reset)
+		gone := false
+		for _, e := range h.Ev {
+			if e.Kind == "c-close" && e.Seq < ret.Seq {
+				gone = true
+			}
+		}
+		if termSeq >= 0 && ret.Seq > termSeq && !gone {
+			consumed = true
+		}
+	}
 	if lastSent != nil && (fstr(lastSent, "state") == "failed" || fstr(lastSent, "state") == "finished") && p.Faults.Benign() && consumed {
 		// (the client's end of the link, not what the scripted server can still read: the server
 		// may have closed or reset its own end right behind the answer)
